@@ -158,3 +158,241 @@ Proof.
     + specialize (IH (lupd a (m_key m) ks1)).
       destruct (l_prewrite (lupd a (m_key m) ks1) primary start ttl mc ms). exact IH.
 Qed.
+
+(** * The steps are stable *)
+Lemma find_start_add_rec rs r :
+  (forall x, In x rs -> lr_start x <> lr_start r) -> find_start (add_rec rs r) (lr_start r) = Some r.
+Proof.
+  intro Hn. destruct (find_start (add_rec rs r) (lr_start r)) as [x|] eqn:Hf.
+  - apply find_start_some in Hf as [Hin Hs]. apply In_add_rec in Hin as [->|Hin]; [reflexivity|].
+    exfalso. now apply (Hn x Hin).
+  - exfalso. now apply (find_start_none _ _ r Hf (In_add_rec_new rs r)).
+Qed.
+
+Lemma find_start_add_rec_some rs r : find_start (add_rec rs r) (lr_start r) <> None.
+Proof. intro Hf. now apply (find_start_none _ _ r Hf (In_add_rec_new rs r)). Qed.
+
+Lemma pw_step_stable primary start ttl mc m ks ks' :
+  ks_inv2 ks -> pw_step primary start ttl mc m ks = KCont ks' ->
+  ks_inv2 ks' /\ (pw_step primary start ttl mc m ks' = KCont ks' \/ pw_step primary start ttl mc m ks' = KSkip).
+Proof.
+  intros HJ Hs. unfold pw_step in *. destruct (is_nil (m_key m)); [discriminate|].
+  destruct (l_prewrite_key ks primary start ttl mc m) as [ks1 [e|]] eqn:Hp; [discriminate|].
+  inversion Hs; subst ks1. split; [eapply ktrans_inv2; [econstructor; exact Hp | exact HJ]|].
+  left. pose proof Hp as Hp0. apply prewrite_key_success in Hp as (Hbelow & Hop & _ & Hrecs & l' & Hl' & Hts & Hkind).
+  unfold l_prewrite_key in *. unfold foreign_lock in *. rewrite Hl'.
+  assert (E : (l_ts (ll_rec l') =? start) = true) by lia. rewrite E, Hrecs.
+  (* the first run passed the conflict check on the same records *)
+  destruct (match ks_lock ks with Some l => if l_ts (ll_rec l) =? start then None else Some l | None => None end); [discriminate|].
+  destruct (match newest_any (ks_recs ks) with Some r => if start <=? lr_ts r then Some r else None | None => None end); [discriminate|].
+  destruct (m_op m); inversion Hp0; subst ks'; cbn [ks_recs]; reflexivity.
+Qed.
+
+Lemma commit_key_success_stable ks k l cv ks1 :
+  ks_inv2 ks -> ks_lock ks = Some l -> l_commit_key ks k l cv = (ks1, None) ->
+  (ks1 = ks) \/
+  (ks_lock ks1 = None /\ exists r, find_start (ks_recs ks1) (l_ts (ll_rec l)) = Some r /\ lr_kind r <> OpRollback).
+Proof.
+  intros HJ Hl Hc. unfold l_commit_key in Hc. destruct (cv <? l_min_commit (ll_rec l)); [discriminate|].
+  destruct (find_start (ks_recs ks) (l_ts (ll_rec l))) as [r0|] eqn:Hf.
+  - destruct (op_eqb (lr_kind r0) OpRollback) eqn:Hk; [discriminate|].
+    destruct (lr_ts r0 =? cv); inversion Hc; subst ks1; [now left|].
+    right. split; [reflexivity|]. exists r0. cbn [ks_recs]. split; [exact Hf|]. intro E. rewrite E in Hk. discriminate.
+  - inversion Hc; subst ks1. right. split; [reflexivity|]. cbn [ks_recs].
+    set (nr := {| lr_ts := cv; lr_kind := l_kind (ll_rec l); lr_start := l_ts (ll_rec l); lr_val := ll_val l |}).
+    exists nr. split; [|apply (J_lock_kind _ HJ l Hl)].
+    apply (find_start_add_rec (ks_recs ks) nr). intros x Hx. now apply (find_start_none _ _ x Hf Hx).
+Qed.
+
+Lemma commit_step_stable start cv k ks ks' :
+  start <= cv -> ks_inv2 ks -> commit_step start cv k ks = KCont ks' ->
+  ks_inv2 ks' /\ (commit_step start cv k ks' = KCont ks' \/ commit_step start cv k ks' = KSkip).
+Proof.
+  intros Hle HJ Hs. unfold commit_step in Hs. destruct (is_nil k) eqn:Hk; [discriminate|].
+  destruct (ks_lock ks) as [l|] eqn:Hl.
+  2: { destruct (find_start (ks_recs ks) start) as [r|]; [|discriminate].
+       destruct (op_eqb (lr_kind r) OpRollback); discriminate. }
+  destruct (l_ts (ll_rec l) =? start) eqn:Hts; [|discriminate].
+  destruct (l_commit_key ks k l cv) as [ks1 [e|]] eqn:Hc; [discriminate|]. inversion Hs; subst ks1.
+  split; [eapply ktrans_inv2; [eapply (KT_commit _ k l cv); [exact Hl | lia | exact Hc] | exact HJ]|].
+  destruct (commit_key_success_stable ks k l cv ks' HJ Hl Hc) as [->|(Hn & r & Hf & Hkind)].
+  - left. unfold commit_step. now rewrite Hk, Hl, Hts, Hc.
+  - right. unfold commit_step. rewrite Hk, Hn. assert (start = l_ts (ll_rec l)) by lia. subst start.
+    rewrite Hf. destruct (lr_kind r); try contradiction; reflexivity.
+Qed.
+
+Lemma rollback_key_idem ks start : l_rollback_key (l_rollback_key ks start) start = l_rollback_key ks start.
+Proof.
+  unfold l_rollback_key. destruct (find_start (ks_recs ks) start) as [r|] eqn:Hf.
+  - now rewrite Hf.
+  - cbn [ks_recs].
+    set (nr := {| lr_ts := start; lr_kind := OpRollback; lr_start := start; lr_val := [] |}).
+    destruct (find_start (add_rec (ks_recs ks) nr) start) eqn:Hf2; [reflexivity|].
+    exfalso. now apply (find_start_add_rec_some (ks_recs ks) nr).
+Qed.
+
+Lemma rollback_step_stable start k ks ks' :
+  ks_inv2 ks -> rollback_step start k ks = KCont ks' ->
+  ks_inv2 ks' /\ (rollback_step start k ks' = KCont ks' \/ rollback_step start k ks' = KSkip).
+Proof.
+  intros HJ Hs. unfold rollback_step in *. destruct (is_nil k); [discriminate|]. inversion Hs; subst ks'.
+  split; [eapply ktrans_inv2; [constructor | exact HJ]|]. left. now rewrite rollback_key_idem.
+Qed.
+
+Lemma rollback_key_unlocks ks start l :
+  ks_inv2 ks -> ks_lock ks = Some l -> l_ts (ll_rec l) = start ->
+  own_lock (l_rollback_key ks start) start = None.
+Proof.
+  intros HJ Hl Hts. unfold l_rollback_key.
+  destruct (find_start (ks_recs ks) start) as [r|] eqn:Hf.
+  - exfalso. apply find_start_some in Hf as [H1 H2]. apply (J_lock_fresh _ HJ l r Hl H1). congruence.
+  - unfold own_lock at 1. cbn [ks_lock]. unfold own_lock. rewrite Hl.
+    assert (E : (l_ts (ll_rec l) =? start) = true) by lia. now rewrite E.
+Qed.
+
+Lemma resolve_step_stable start cv k ks ks' :
+  (cv = 0 \/ start <= cv) -> ks_inv2 ks -> resolve_step start cv k ks = KCont ks' ->
+  ks_inv2 ks' /\ (resolve_step start cv k ks' = KCont ks' \/ resolve_step start cv k ks' = KSkip).
+Proof.
+  intros Hle HJ Hs. unfold resolve_step in Hs. destruct (is_nil k) eqn:Hk; [discriminate|].
+  destruct (own_lock ks start) as [l|] eqn:Ho; [|discriminate].
+  assert (Hl : ks_lock ks = Some l /\ l_ts (ll_rec l) = start).
+  { unfold own_lock in Ho. destruct (ks_lock ks) as [l0|]; [|discriminate].
+    destruct (l_ts (ll_rec l0) =? start) eqn:E; [|discriminate]. inversion Ho; subst. split; [reflexivity | lia]. }
+  destruct Hl as [Hl Hts]. destruct (cv =? 0) eqn:Hcv.
+  - inversion Hs; subst ks'. split; [eapply ktrans_inv2; [constructor | exact HJ]|].
+    right. unfold resolve_step. now rewrite Hk, (rollback_key_unlocks ks start l HJ Hl Hts).
+  - destruct (l_commit_key ks k l cv) as [ks1 [e|]] eqn:Hc; [discriminate|]. inversion Hs; subst ks1.
+    split; [eapply ktrans_inv2; [eapply (KT_commit _ k l cv); [exact Hl | lia | exact Hc] | exact HJ]|].
+    destruct (commit_key_success_stable ks k l cv ks' HJ Hl Hc) as [->|(Hn & _)].
+    + left. unfold resolve_step. now rewrite Hk, Ho, Hcv, Hc.
+    + right. unfold resolve_step, own_lock. now rewrite Hk, Hn.
+Qed.
+
+(** * A request applied twice *)
+Definition req_nodup (r : request) : Prop :=
+  match r with
+  | RPrewrite ms _ _ _ _ => NoDup (map m_key ms)
+  | RCommit keys _ _ | RRollback keys _ | RResolve keys _ _ => NoDup keys
+  | _ => True
+  end.
+
+Lemma map_id {A} (l : list A) : map (fun k => k) l = l.
+Proof. induction l; cbn; congruence. Qed.
+
+Lemma l_check_idem a primary lts cur caller rb :
+  Inv2 a ->
+  aeq (fst (l_check (fst (l_check a primary lts cur caller rb)) primary lts cur caller rb))
+      (fst (l_check a primary lts cur caller rb)).
+Proof.
+  intro HJ. unfold l_check at 2 3.
+  destruct (ks_lock (ls_at a primary)) as [l|] eqn:Hl.
+  - destruct (negb (l_ts (ll_rec l) =? lts)) eqn:Hts.
+    { cbn [fst]. unfold l_check. rewrite Hl, Hts. apply aeq_refl. }
+    apply negb_false_iff in Hts.
+    destruct (lock_expired (ll_rec l) cur) eqn:Hexp.
+    + cbn [fst]. unfold l_check. rewrite ls_at_lupd, bytes_eqb_refl.
+      pose proof (rollback_key_unlocks _ lts l (HJ primary) Hl ltac:(lia)) as Hu.
+      unfold l_rollback_key in *. destruct (find_start (ks_recs (ls_at a primary)) lts) as [r|] eqn:Hf.
+      * exfalso. apply find_start_some in Hf as [H1 H2]. apply (J_lock_fresh _ (HJ primary) l r Hl H1). lia.
+      * cbn [ks_lock ks_recs] in *. unfold own_lock in Hu |- *. rewrite Hl in *.
+        assert (E : (l_ts (ll_rec l) =? lts) = true) by lia. rewrite E in *. cbn [ks_lock].
+        set (nr := {| lr_ts := lts; lr_kind := OpRollback; lr_start := lts; lr_val := [] |}).
+        assert (Hfa : find_start (add_rec (ks_recs (ls_at a primary)) nr) lts = Some nr)
+          by (apply (find_start_add_rec (ks_recs (ls_at a primary)) nr); intros x Hx; now apply (find_start_none _ _ x Hf Hx)).
+        rewrite Hfa.
+        cbn. apply aeq_refl.
+    + destruct ((0 <? caller) && (l_min_commit (ll_rec l) <? wrap64 (caller + 1))) eqn:Hp.
+      * cbn [fst]. unfold l_check. rewrite ls_at_lupd, bytes_eqb_refl. cbn [ks_lock ll_rec l_ts].
+        rewrite Hts. cbn [negb]. unfold lock_expired in *. cbn [l_ttl l_ts l_min_commit]. rewrite Hexp.
+        assert (E : (0 <? caller) && (wrap64 (caller + 1) <? wrap64 (caller + 1)) = false) by lia. rewrite E.
+        apply aeq_refl.
+      * cbn [fst]. unfold l_check. rewrite Hl, Hts. cbn [negb]. rewrite Hexp, Hp. apply aeq_refl.
+  - destruct (find_start (ks_recs (ls_at a primary)) lts) as [r|] eqn:Hf.
+    + assert (E : fst (if op_eqb (lr_kind r) OpRollback then (a, cr_ok ActLockNotExistRollback 0 0) else (a, cr_ok ActNone 0 (lr_ts r))) = a)
+        by (destruct (op_eqb (lr_kind r) OpRollback); reflexivity).
+      rewrite E. unfold l_check. rewrite Hl, Hf. rewrite E. apply aeq_refl.
+    + destruct rb.
+      * cbn [fst]. unfold l_check. rewrite ls_at_lupd, bytes_eqb_refl. unfold l_rollback_key. rewrite Hf.
+        cbn [ks_lock ks_recs]. unfold own_lock. rewrite Hl.
+        set (nr := {| lr_ts := lts; lr_kind := OpRollback; lr_start := lts; lr_val := [] |}).
+        assert (Hfa : find_start (add_rec (ks_recs (ls_at a primary)) nr) lts = Some nr)
+          by (apply (find_start_add_rec (ks_recs (ls_at a primary)) nr); intros x Hx; now apply (find_start_none _ _ x Hf Hx)).
+        rewrite Hfa.
+        cbn. apply aeq_refl.
+      * cbn [fst]. unfold l_check. rewrite Hl, Hf. apply aeq_refl.
+Qed.
+
+Theorem lstep_idem a r :
+  req_ok r = true -> req_nodup r -> Inv2 a ->
+  aeq (fst (lstep (fst (lstep a r)) r)) (fst (lstep a r)).
+Proof.
+  intros Hok Hnd HJ. destruct r; cbn [req_nodup req_ok] in *.
+  - assert (E : forall a0, fst (lstep a0 (RPrewrite muts primary start ttl min_commit)) =
+                          gloop m_key (pw_step primary start ttl min_commit) a0 muts).
+    { intro a0. cbn [lstep]. rewrite <- l_prewrite_gloop. now destruct (l_prewrite a0 primary start ttl min_commit muts). }
+    rewrite !E. apply (gloop_idem m_key _ ks_inv2); [|exact Hnd | exact HJ].
+    intros x ks ks'. apply pw_step_stable.
+  - apply andb_true_iff in Hok as [_ Hlt].
+    assert (E : forall a0, fst (lstep a0 (RCommit keys start commit_version)) =
+                          gloop (fun k => k) (commit_step start commit_version) a0 keys).
+    { intro a0. cbn [lstep]. rewrite <- l_commit_gloop. now destruct (l_commit a0 keys start commit_version). }
+    rewrite !E. apply (gloop_idem _ _ ks_inv2); [|now rewrite map_id | exact HJ].
+    intros x ks ks'. apply commit_step_stable. lia.
+  - assert (E : forall a0, fst (lstep a0 (RRollback keys start)) = gloop (fun k => k) (rollback_step start) a0 keys).
+    { intro a0. cbn [lstep]. rewrite <- l_batch_rollback_gloop. now destruct (l_batch_rollback a0 keys start). }
+    rewrite !E. apply (gloop_idem _ _ ks_inv2); [|now rewrite map_id | exact HJ].
+    intros x ks ks'. apply rollback_step_stable.
+  - apply andb_true_iff in Hok as [_ Hlt].
+    assert (E : forall a0, fst (lstep a0 (RResolve keys start commit_version)) =
+                          gloop (fun k => k) (resolve_step start commit_version) a0 keys).
+    { intro a0. cbn [lstep]. rewrite <- (l_resolve_gloop start commit_version keys a0 0).
+      now destruct (l_resolve a0 keys start commit_version 0) as [[a1 n] e]. }
+    rewrite !E. apply (gloop_idem _ _ ks_inv2); [|now rewrite map_id | exact HJ].
+    intros x ks ks'. apply resolve_step_stable. lia.
+  - cbn [lstep].
+    pose proof (l_check_idem a primary lock_ts current_ts caller_start rollback_if_not_exist HJ) as H.
+    destruct (l_check a primary lock_ts current_ts caller_start rollback_if_not_exist) as [a1 r1]. cbn [fst] in *.
+    destruct (l_check a1 primary lock_ts current_ts caller_start rollback_if_not_exist). exact H.
+  - apply aeq_refl.
+  - cbn [lstep]. destruct (lscan a start_key include_start limit version). cbn [fst].
+    destruct (lscan a start_key include_start limit version). apply aeq_refl.
+Qed.
+
+(** * Observations after a repeated request *)
+Lemma lget_aeq a b k t : aeq a b -> lget a k t = lget b k t.
+Proof. intro H. unfold lget. now rewrite (H k). Qed.
+
+Theorem repeat_changes_nothing h r k t :
+  forallb req_ok (h ++ [r]) = true -> req_nodup r ->
+  handle_get current (apply_all current (h ++ [r; r])) k t = handle_get current (apply_all current (h ++ [r])) k t /\
+  get_lock (apply_all current (h ++ [r; r])) k = get_lock (apply_all current (h ++ [r])) k.
+Proof.
+  intros Hok Hnd.
+  assert (Hok2 : forallb req_ok (h ++ [r; r]) = true).
+  { rewrite forallb_app in *. apply andb_true_iff in Hok as [H1 H2]. cbn in *. rewrite H1.
+    apply andb_true_iff in H2 as [H2 _]. now rewrite H2. }
+  assert (Hr : req_ok r = true).
+  { rewrite forallb_app in Hok. apply andb_true_iff in Hok as [_ H2]. cbn in H2. now apply andb_true_iff in H2 as [H2 _]. }
+  assert (Hh : forallb req_ok h = true) by (rewrite forallb_app in Hok; now apply andb_true_iff in Hok as [H1 _]).
+  pose proof (lstep_idem (lrun h) r Hr Hnd (lrun_inv2 h Hh)) as Hid.
+  assert (E1 : lrun (h ++ [r]) = fst (lstep (lrun h) r)) by (rewrite lrun_app; reflexivity).
+  assert (E2 : lrun (h ++ [r; r]) = fst (lstep (fst (lstep (lrun h) r)) r)) by (rewrite lrun_app; reflexivity).
+  split.
+  - rewrite (get_refines _ k t Hok2), (get_refines _ k t Hok), E1, E2. now apply lget_aeq.
+  - rewrite (lock_refines _ k Hok2), (lock_refines _ k Hok), E1, E2. now rewrite (Hid k).
+Qed.
+
+(** re-applying an older part of the log is *not* harmless: a re-applied
+    prewrite resets the MinCommitTs a reader had pushed *)
+Definition wit_reapply : list request :=
+  [RPrewrite [{| m_op := OpPut; m_key := B1 97; m_val := B1 1 |}] (B1 97) 10 100 0; RCheck (B1 97) 10 20 50 false].
+Lemma reapply_prefix_refuted :
+  forallb req_ok (wit_reapply ++ firstn 1 wit_reapply) = true /\
+  option_map l_min_commit (get_lock (apply_all current wit_reapply) (B1 97)) = Some 51 /\
+  option_map l_min_commit (get_lock (apply_all current (wit_reapply ++ firstn 1 wit_reapply)) (B1 97)) = Some 0.
+Proof. vm_compute. repeat split. Qed.
+
+Example repeat_nonvacuous :
+  forallb req_ok (wit_f18 ++ [RCommit [B1 97] 10 20]) = true /\ req_nodup (RCommit [B1 97] 10 20).
+Proof. split; [reflexivity|]. cbn. repeat constructor. intros []. Qed.
